@@ -73,7 +73,11 @@ Definition resolve1 (d : Z) (e : ientry) : res rentry :=
     | None => Raise ValueError                               (* slice step cannot be zero *)
     end
   | IArr l => if forallb (in_bounds d) l then Ok (RAdv (map (wrap d) l)) else Raise IndexError
-  | IBArr l => if Z.of_nat (length l) =? d then Ok (RAdv (nonzero_from 0 l)) else Raise IndexError
+  | IBArr l =>
+    (* a boolean index must have the length of the axis — except that NumPy (2.x, mapping.c) lets a
+       boolean array of size 0 through on any axis (it selects nothing) *)
+    if (Z.of_nat (length l) =? d) || (Z.of_nat (length l) =? 0) then Ok (RAdv (nonzero_from 0 l))
+    else Raise IndexError
   | INone | IEllipsis => Raise OtherError                    (* not reached: handled by the callers *)
   end.
 
